@@ -4,9 +4,9 @@ ID=$1; X=$2; CK=${3:-$1}
 W=/tmp/seed/$ID
 unset PYTHONDONTWRITEBYTECODE; export PYTHONPYCACHEPREFIX=/verif/build/pycache
 cd $W && git checkout -q -- . 
-timeout 900 bash seed_$X/demo.sh $W >/tmp/lead/demo_clean.log 2>&1; echo "demo clean exit: $?"
+timeout 900 bash seed_$X/demo.sh $W >/tmp/lead/demo_clean_$ID.log 2>&1; echo "demo clean exit: $?"
 git apply seed_$X/patch.diff || { echo "patch does not apply"; exit 2; }
-timeout 900 bash seed_$X/demo.sh $W >/tmp/lead/demo_patched.log 2>&1; echo "demo patched exit: $?"
+timeout 900 bash seed_$X/demo.sh $W >/tmp/lead/demo_patched_$ID.log 2>&1; echo "demo patched exit: $?"
 (cd $W && PYTHONPATH=$W timeout 2400 /venv/bin/python -m pytest -q -p no:cacheprovider --timeout=900 --continue-on-collection-errors 2>&1 | tail -1)
 cd /verif && EMBOSS_REPO=$W timeout 2400 ./check $CK 2>&1 | grep -E "VIOLATION|KNOWN-FINDING|detail|$CK quick" | cut -c1-300
 git -C $W checkout -q -- .
